@@ -1,4 +1,5 @@
 """C06 let bindings are lexically scoped."""
+from hv import core  # noqa: E402
 import itertools
 import multiprocessing as mp
 
@@ -98,48 +99,68 @@ def scope_contracts(chk):
                    detail=f"{free.id} {param.id} {local.id}")
 
 
+def _shape(body):
+    out = []
+    for t in body:
+        if t[0] in ("let", "fn", "defn", "def", "class"):
+            sub = t[2] if t[0] in ("let", "defn", "def", "class") else t[1]
+            tag = t[0] + ("[" + ",".join(n for n, _ in t[1]) + "]" if t[0] == "let" else "")
+            for i in range(5):
+                tag = tag.replace(f"let[x,c{i},x]", "let[x,closure,x]")
+            out.append(tag + ">" + _shape(sub))
+        elif t[0] in ("lfor", "lforx"):
+            out.append(t[0])
+    return "+".join(out)
+
+
+def _w_spine(task):
+    """One spine (sequence of level kinds) with its statement options: the programs are generated inside the worker (a
+    program list built in the parent would be copied page by page into every forked worker)."""
+    levels, npre, npost, ninner, wraps = task
+    per = {}
+    n = 0
+    for wrap in wraps:
+        for prog in sc.spine_programs(list(levels), PRE[:npre], POST[:npost], INNER[:ninner], wrap_function=wrap):
+            n += 1
+            ok, hs, ps, h, p = sc.compare(prog)
+            st = per.setdefault(_shape(prog), [0, None])
+            st[0] += 1
+            if not ok and st[1] is None:
+                st[1] = (hs, ps, h, p)
+    return n, per
+
+
 def run(chk):
     quick = chk.tier == "quick"
     scope_contracts(chk)
-    del PROGS[:]
     maxd = 3 if quick else 4
+    tasks = []
     for d in range(1, maxd + 1):
         for levels in itertools.product(LEVELS, repeat=d):
             if d == 1 or (d == 2 and not quick):
-                pre, post, inner, wraps = PRE, POST, INNER, (False, True)
+                opts = (len(PRE), len(POST), len(INNER), (False, True))
             elif d == 2:
-                pre, post, inner, wraps = PRE[:2], POST[:2], INNER, (False, True)
+                opts = (2, 2, len(INNER), (False, True))
             elif d == 3:
-                pre, post, inner, wraps = (PRE[:1], POST[:1], INNER[:3], (False,)) if quick else (PRE[:2], POST[:2], INNER, (False, True))
+                opts = (1, 1, 3, (False,)) if quick else (2, 2, len(INNER), (False, True))
             else:
-                pre, post, inner, wraps = PRE[:1], POST[:2], INNER[:3], (False,)
-            for wrap in wraps:
-                PROGS.extend(sc.spine_programs(list(levels), pre, post, inner, wrap_function=wrap))
+                opts = (1, 2, 3, (False,))
+            tasks.append((levels,) + opts)
     import gc; gc.collect(); gc.freeze()  # forked workers then touch (copy) far fewer pages
-    with mp.get_context("fork").Pool(chk.jobs) as pool:
-        res = pool.map(_w, range(len(PROGS)), chunksize=256)
+    from hv.core import spawn_pool
+    with spawn_pool(chk.jobs) as pool:
+        res = core.pmap(pool, _w_spine, tasks, chunksize=max(1, len(tasks) // (chk.jobs * 24)))
     # one obligation per spine shape (sequence of level kinds)
     per = {}
-    for i, ok, info in res:
-        prog = PROGS[i]
-        chk.case(i)
-
-        def shape(body):
-            out = []
-            for t in body:
-                if t[0] in ("let", "fn", "defn", "def", "class"):
-                    sub = t[2] if t[0] in ("let", "defn", "def", "class") else t[1]
-                    tag = t[0] + ("[" + ",".join(n for n, _ in t[1]) + "]" if t[0] == "let" else "")
-                    tag = tag.replace("let[x,c0,x]", "let[x,closure,x]").replace("let[x,c1,x]", "let[x,closure,x]").replace("let[x,c2,x]", "let[x,closure,x]").replace("let[x,c3,x]", "let[x,closure,x]")
-                    out.append(tag + ">" + shape(sub))
-                elif t[0] in ("lfor", "lforx"):
-                    out.append(t[0])
-            return "+".join(out)
-        key = shape(prog)
-        st = per.setdefault(key, [0, None])
-        st[0] += 1
-        if not ok and st[1] is None:
-            st[1] = info
+    nprogs = 0
+    for n, part in res:
+        nprogs += n
+        for key, (cnt, info) in part.items():
+            st = per.setdefault(key, [0, None])
+            st[0] += cnt
+            if info is not None and st[1] is None:
+                st[1] = info
+    chk.evaluations += nprogs
     for key, (n, info) in sorted(per.items()):
         det = None
         rp = None
@@ -148,7 +169,7 @@ def run(chk):
             det = f"Hy source: {hs}\n  reference Python:\n{ps}  Hy run : {h}\n  ref run: {p}"
             rp = {"confirmed": True, "hy_source": hs, "reference_python": ps, "observed": repr(h), "expected": repr(p)}
         chk.ob(f"resolve/spine {key or 'flat'}", info is None, "cpython-oracle", "exhaustive_finite", detail=det or f"{n} programs", replay=rp)
-    chk.extra["programs"] = len(PROGS)
+    chk.extra["programs"] = nprogs
     chk.fn("hy/scoping.py::ScopeLet.add/access/assign/define/_rename_if_bound", "hy/scoping.py::ScopeFn.__exit__/access/assign",
            "hy/core/result_macros.py::compile_let, compile_assign", "hy/compiler.py::HyASTCompiler.compile_symbol")
     chk.trust("reference renamer (lexical alpha-renaming of let) + CPython scoping as oracle")
@@ -157,7 +178,8 @@ def run(chk):
     prog = (("let", (("x", 1),), (("let", (("x", 2),), (("log", "x"),)), ("log", "x"))),)
     h = sc.run_hy(sc.body_hy(prog))
     chk.canary("shadowing is observable: inner and outer reads differ", [v for _, v in h[0]] == [2, 1])
-    chk.sample({"hy": sc.body_hy(PROGS[len(PROGS) // 2]), "reference_python": sc.to_py(PROGS[len(PROGS) // 2])})
+    sample = next(iter(sc.spine_programs([("let", ("x",)), ("fn",)], PRE[:1], POST[:1], INNER[:1])))
+    chk.sample({"hy": sc.body_hy(sample), "reference_python": sc.to_py(sample)})
 
 
 def replay(path):
